@@ -4,13 +4,22 @@ import Sentinel.Model.Bucket
 namespace Sentinel.Drv.C08
 open Sentinel.LA Sentinel.Drv
 
+/-- a `BaseStatNode`: its own array, the default metric `(sc, Iv)`, the spec-side history offset, and the node's
+    readable views (`views[0]` = `DefaultMetric()`, the rest were returned by `GenerateReadStat`) -/
+structure Node where
+  a : Arr Bucket
+  sc : Nat
+  Iv : Nat
+  off : Nat
+  views : Array (Nat × Nat)
+
 structure St where
   a : Arr Bucket := { n := 1, L := 1, slots := [] }
   views : Array (Nat × Nat) := #[]            -- (sampleCount, interval)
   now : Nat := 0
   t0 : Nat := 0
   hist : List (Nat × Bucket) := []            -- spec side: recorded events
-  nodes : Array (Arr Bucket × Nat × Nat × Nat) := #[]   -- BaseStatNode: own array, (sc, Iv), spec: history offset
+  nodes : Array Node := #[]
   mono : Bool := true                          -- spec side: time never went backwards
 
 def qps (sum Iv : Nat) : Float := sum.toFloat / (Iv.toFloat / 1000.0)
@@ -28,7 +37,7 @@ def sortItems (xs : List (Nat × Bucket)) : List (Nat × Bucket) :=
 def record (spec : Bool) (s : St) (x : Bucket) : St :=
   if spec then { s with hist := s.hist ++ [(s.now, x)] }
   else { s with a := (addAt s.a s.now x).1,
-                nodes := s.nodes.map fun (a, r) => ((addAt a s.now x).1, r) }
+                nodes := s.nodes.map fun nd => { nd with a := (addAt nd.a s.now x).1 } }
 
 /-- the getters shared by a `SlidingWindowMetric` view and a `BaseStatNode`, given the window payload
     at a time (`wsum`), the view geometry and the per-bucket maximum -/
@@ -60,6 +69,26 @@ def refB (s : St) (lo hi : Nat) : Bucket := refW s.a.L s.hist lo hi
 /-- the aligned window of a view of interval `Iv` read at `now` -/
 def win (s : St) (Iv now : Nat) : Nat × Nat := (cbs s.a.L now + s.a.L - Iv, cbs s.a.L now)
 
+/-- a read through a view `(sc, Iv)` on the array `a` whose recordings are `h` (the parent array with the whole
+    history, or a node's own array with the recordings since its creation): `model` evaluates the code-shaped
+    getters on `a`, `spec` the aligned-bucket reference over `h` -/
+def readView (spec : Bool) (s : St) (a : Arr Bucket) (h : List (Nat × Bucket)) (sc Iv : Nat) (node : Bool)
+    (rest : List String) : String :=
+  if spec && !s.mono then "?" else
+  let refN (lo hi : Nat) : Bucket := refW s.a.L h lo hi
+  let wsum (now : Nat) : Bucket :=
+    if spec then (let w := win s Iv now; refN w.1 w.2) else viewSum a Iv now
+  let maxb (ev : Ev) : Nat :=
+    if spec then
+      let w := win s Iv s.now
+      let starts := (List.range (Iv / s.a.L)).filterMap fun i =>
+        if i * s.a.L ≤ w.2 then some (w.2 - i * s.a.L) else none
+      ((starts.filter fun b => decide (w.1 ≤ b)).map fun b => (refN b b).get ev).foldl max 0
+    else vMaxBucket a Iv s.now ev
+  -- previous-window reads are only claimed when the array still has a slot for them
+  let prevOk := !spec || (decide (Iv + Iv / sc ≤ s.a.n * s.a.L) && decide (s.now ≠ Iv / sc))
+  (getter wsum maxb s.now sc Iv prevOk node rest).getD "bad-op"
+
 def step (spec : Bool) (s : St) (ts : List String) (_ : String) : St × Option String :=
   match ts with
   | ["la.new", n, I, t] => match n.toNat?, I.toNat?, t.toNat? with
@@ -86,44 +115,35 @@ def step (spec : Bool) (s : St) (ts : List String) (_ : String) : St × Option S
       | some k => match s.views[k]? with
         | none => (s, some "bad-op")
         | some (sc, Iv) =>
-          if spec && !s.mono then (s, some "?") else
-          let wsum (now : Nat) : Bucket :=
-            if spec then (let w := win s Iv now; refB s w.1 w.2) else viewSum s.a Iv now
-          let maxb (ev : Ev) : Nat :=
-            if spec then
-              let w := win s Iv s.now
-              let starts := (List.range (Iv / s.a.L)).filterMap fun i =>
-                if i * s.a.L ≤ w.2 then some (w.2 - i * s.a.L) else none
-              ((starts.filter fun b => decide (w.1 ≤ b)).map fun b => (refB s b b).get ev).foldl max 0
-            else vMaxBucket s.a Iv s.now ev
-          -- previous-window reads are only claimed when the array still has a slot for them
-          let prevOk := !spec || (decide (Iv + Iv / sc ≤ s.a.n * s.a.L) && decide (s.now ≠ Iv / sc))
-          (s, some ((getter wsum maxb s.now sc Iv prevOk false rest).getD "bad-op"))
+          (s, some (readView spec s s.a s.hist sc Iv false rest))
   | ["node", sc, Iv] => match sc.toNat?, Iv.toNat? with
       | some sc, some Iv =>
         if validView sc Iv s.a.n (s.a.n * s.a.L) ≠ 0 then (s, some "bad-op") else
         let a : Arr Bucket := if spec then { n := s.a.n, L := s.a.L, slots := [] } else mk s.a.n s.a.L s.now
-        ({ s with nodes := s.nodes.push (a, sc, Iv, s.hist.length) }, none)
+        ({ s with nodes := s.nodes.push { a := a, sc := sc, Iv := Iv, off := s.hist.length, views := #[(sc, Iv)] } }, none)
       | _, _ => (s, some "bad-op")
   | "nread" :: k :: rest => match k.toNat? with
       | none => (s, some "bad-op")
       | some k => match s.nodes[k]? with
         | none => (s, some "bad-op")
-        | some (a, sc, Iv, off) =>
-          if spec && !s.mono then (s, some "?") else
-          let h := s.hist.drop off
-          let refN (lo hi : Nat) : Bucket := refW s.a.L h lo hi
-          let wsum (now : Nat) : Bucket :=
-            if spec then (let w := win s Iv now; refN w.1 w.2) else viewSum a Iv now
-          let maxb (ev : Ev) : Nat :=
-            if spec then
-              let w := win s Iv s.now
-              let starts := (List.range (Iv / s.a.L)).filterMap fun i =>
-                if i * s.a.L ≤ w.2 then some (w.2 - i * s.a.L) else none
-              ((starts.filter fun b => decide (w.1 ≤ b)).map fun b => (refN b b).get ev).foldl max 0
-            else vMaxBucket a Iv s.now ev
-          let prevOk := !spec || (decide (Iv + Iv / sc ≤ s.a.n * s.a.L) && decide (s.now ≠ Iv / sc))
-          (s, some ((getter wsum maxb s.now sc Iv prevOk true rest).getD "bad-op"))
+        | some nd => (s, some (readView spec s nd.a (s.hist.drop nd.off) nd.sc nd.Iv true rest))
+  | ["ngen", k, sc, Iv] => match k.toNat?, sc.toNat?, Iv.toNat? with
+      | some k, some sc, some Iv => match s.nodes[k]? with
+        | none => (s, some "bad-op")
+        | some nd =>
+          -- `BaseStatNode.GenerateReadStat`: a view on the node's own array, exactly like `view` on the array
+          let c := validView sc Iv s.a.n (s.a.n * s.a.L)
+          if c = 0 then
+            ({ s with nodes := s.nodes.set! k { nd with views := nd.views.push (sc, Iv) } }, some "ok")
+          else (s, some s!"err {c}")
+      | _, _, _ => (s, some "bad-op")
+  | "ngread" :: k :: v :: rest => match k.toNat?, v.toNat? with
+      | some k, some v => match s.nodes[k]? with
+        | none => (s, some "bad-op")
+        | some nd => match nd.views[v]? with
+          | none => (s, some "bad-op")
+          | some (sc, Iv) => (s, some (readView spec s nd.a (s.hist.drop nd.off) sc Iv false rest))
+      | _, _ => (s, some "bad-op")
   | ["count", ev] => match Ev.ofString? ev with
       | some ev =>
         if spec then
